@@ -35,17 +35,21 @@ PROP = 'C02'
 LEVEL = 'exploration'
 COUNTS = {'quick': 26, 'thorough': 800}
 BUDGET = {'quick': 140, 'thorough': 1700}
-TIMEOUT = 400
+TIMEOUT = 1200
 WORKERS = 6          # every scenario starts fresh interpreters and code generations that use their own process pool
 DETERMINISM_SMOKE = 2
 MIN_EVALS = {'quick': 6, 'thorough': 30}
 SHRINK_LISTS = []
-EXPECTED_PROBES = ['edit', 'stale_md5', 'torn', 'deleted', 'crash', 'regen', 'evals', 'regenerated_models', 'loud_failure']
+EXPECTED_PROBES = ['edit', 'stale_md5', 'torn', 'deleted', 'crash', 'regen', 'evals', 'regenerated_models', 'loud_failure',
+                   'case_models_evaluated', 'case_values_compared', 'all_cases_evaluated']
 RULE = ('plan = (scenario kind, seeded model/variable/expression or byte offset or crash point); non-trivial = the store was really '
         'perturbed (edit applied, bytes changed, generation interrupted) and a fresh interpreter evaluated the loaded code afterwards; '
         'distinct = (kind, model, detail)')
 ASSUMPTIONS = [
-    'the "for all arguments" clause is judged only at seeded points of four probe models; this technique contributes the store lifecycle',
+    'the "for all arguments" clause is not decided: after every lifecycle step the loaded code is compared with the declared strings at '
+    'seeded points only (four probe models of a hand-built system at 1e-9, and every model in use of one seeded stock case per '
+    'evaluation at 1e-6: residuals, variable/constant services, explicit initialisation assignments); this technique contributes the '
+    'store lifecycle',
     'edits are applied by patching the model class constructor in the child interpreter (what a developer editing the file amounts to)',
     'tampering with generated code while keeping its md5 is outside the md5 gate by design and not injected',
 ]
@@ -64,7 +68,7 @@ def plans(seed, tier, count):
     out = []
     for i, e in enumerate(EDITS):
         out.append({'property': PROP, 'seed': core.H('fix02', 'edit', i), 'kind': 'edit', 'edit': e})
-    out.append({'property': PROP, 'seed': core.H('fix02', 'regen'), 'kind': 'regen'})
+    out.insert(0, {'property': PROP, 'seed': core.H('fix02', 'regen'), 'kind': 'regen', 'all_cases': True})
     out.append({'property': PROP, 'seed': core.H('fix02', 'del_init'), 'kind': 'deleted', 'file': '__init__.py'})
     i = 0
     while len(out) < count:
@@ -113,12 +117,19 @@ def judge_eval(res, where, v, probes, must_load=True):
             evaluated = True
             probes['evals'] = probes.get('evals', 0) + 1
             for m, r in st['eval'].items():
-                if r.get('error'):
-                    v.append(V('loaded_code', '[%s] executing the loaded code of %s raised %s' % (where, m, r['error'][:160]), what='raises', model=m))
-                elif r['worst'] > 1e-9:
-                    v.append(V('loaded_code', '[%s] %s' % (where, r['detail']), what='disagrees_with_model', model=m))
+                mname = m.split('@')[0]
+                if '@' in m:
+                    probes['case_models_evaluated'] = probes.get('case_models_evaluated', 0) + 1
+                    probes['case_values_compared'] = probes.get('case_values_compared', 0) + int(r.get('compared', 0))
+                if r.get('checker_error'):
+                    probes['checker_error'] = probes.get('checker_error', 0) + 1
+                elif r.get('error'):
+                    v.append(V('loaded_code', '[%s] executing the loaded code of %s raised %s' % (where, m, r['error'][:160]), what='raises',
+                               model=mname))
+                elif r['worst'] > (1e-6 if '@' in m else 1e-9):
+                    v.append(V('loaded_code', '[%s] %s' % (where, r['detail']), what='disagrees_with_model', model=mname))
                 elif not r['md5_ok']:
-                    v.append(V('loaded_code', '[%s] %s: md5 of the loaded code differs from the model' % (where, m), what='md5', model=m))
+                    v.append(V('loaded_code', '[%s] %s: md5 of the loaded code differs from the model' % (where, m), what='md5', model=mname))
     if not res.get('steps') and must_load:
         v.append(V('store', '[%s] child interpreter produced no result: %s' % (where, res.get('stderr', '')[-300:]), what='no_result'))
     return evaluated
@@ -225,6 +236,10 @@ def execute(plan):
             ref = _hash_dir(store)
             r1, _ = child(home, {'ops': ['prepare_full', 'hash', 'pool_order', 'hash', 'new_system', 'eval'], 'seed': seed})
             judge_eval(r1, 'two regenerations', v, probes)
+            # the freshly generated store, every model in use of every evaluation case
+            r2, _ = child(home, {'ops': ['eval'], 'cases': 'all' if plan.get('all_cases') else 6, 'seed': seed + 1}, timeout=900)
+            judge_eval(r2, 'store after two regenerations, all evaluation cases', v, probes)
+            probes['all_cases_evaluated'] = int(any(st.get('op') == 'eval' and st.get('ok') for st in r2.get('steps', [])))
             hs = [st['hash'] for st in r1.get('steps', []) if st['op'] == 'hash']
             for j, h in enumerate(hs):
                 if h != ref:
@@ -267,5 +282,5 @@ def _hash_dir(d):
     for f in sorted(os.listdir(d)):
         if f.endswith('.py'):
             with open(os.path.join(d, f), 'rb') as fh:
-                out[f] = hashlib.sha256(fh.read()).hexdigest()[:16]
+                out[f] = hashlib.sha256(_norm(f, fh.read())).hexdigest()[:16]
     return out
